@@ -278,7 +278,7 @@ impl SubCheck for Routing {
 		"routing"
 	}
 	fn cases(&self, tier: Tier) -> u32 {
-		tier.pick(30_000, 1_000_000)
+		tier.pick(250_000, 5_000_000)
 	}
 	fn strategy(&self, tier: Tier) -> BoxedStrategy<C03Case> {
 		let max = tier.pick(14usize, 28);
